@@ -570,7 +570,7 @@ func main() {
 	out := flag.String("out", "", "cases directory")
 	seed := flag.Uint64("seed", 1, "seed")
 	tier := flag.String("tier", "quick", "tier")
-	stage := flag.String("stage", "bundle", "bundle|artifacts|config|scan")
+	stage := flag.String("stage", "bundle", "bundle|artifacts|config|scan|time|shlex")
 	_ = flag.String("replay", "", "unused: cases are regenerated from the seed")
 	flag.Parse()
 	slog.SetDefault(slog.New(slog.NewTextHandler(io.Discard, nil)))
@@ -584,6 +584,10 @@ func main() {
 		err = configStage(*out, *seed, *tier)
 	case "scan":
 		err = scanStage(*out, *seed, *tier)
+	case "time":
+		err = timeStage(*out, *seed, *tier)
+	case "shlex":
+		err = shlexStage(*out, *seed, *tier)
 	default:
 		err = fmt.Errorf("unknown stage %q", *stage)
 	}
